@@ -116,6 +116,10 @@ def single_bin(data, fs: float, f: float, L: int, via: str, **o):
         return speckit.compute_single_bin(data, fs, f, L=L, **o)
     if via == "fres":
         return speckit.compute_single_bin(data, fs, f, fres=fs / L, **o)
+    if via == "fres-frac":
+        # a requested resolution that is NOT fs/L exactly: the analysis uses L = round(fs/fres) samples and reports r = fres;
+        # every calibrated quantity (ENBW, ps) must still be the one of the length-L window at sampling rate fs
+        return speckit.compute_single_bin(data, fs, f, fres=fs / (L + 0.3), **o)
     return speckit.SpectrumAnalyzer(data, fs, **o).compute_single_bin(f, L=L)
 
 
@@ -166,8 +170,10 @@ def gen_calib(rng: np.random.Generator, thorough: bool, order: Optional[int] = N
         m0 = min(max(m0, hw + 1.0), L / 2 - hw - 1.0)
     fs = float(rng.choice([1.0, 2.0, 1000.0, float(10 ** rng.uniform(-2, 4))]))
     order = int(rng.choice([-1, -1, 0, 0, 1, 2])) if order is None else order
-    via = str(rng.choice(["func", "method", "fres"]))
+    via = str(rng.choice(["func", "method", "fres", "fres-frac"]))
     if via == "fres" and not fres_gives(fs, L):
+        via = "func"
+    if via == "fres-frac" and int(round(float(fs) / (float(fs) / (L + 0.3)))) != L:
         via = "func"
     return {"kind": "calib", "A": float(10 ** rng.uniform(-3, 3)), "phi": float(rng.uniform(0, 2 * np.pi)), "L": L, "N": N,
             "fs": fs, "f0": m0 * fs / L, "psll": psll, "order": order,
